@@ -31,6 +31,8 @@ pub struct SchemaGenOpts {
     pub covariant_fields: bool,
     /// default values on arguments / input fields
     pub defaults: bool,
+    /// descriptions / deprecation reasons may contain `*/`
+    pub comment_close_in_text: bool,
 }
 
 impl Default for SchemaGenOpts {
@@ -46,6 +48,7 @@ impl Default for SchemaGenOpts {
             keyword_names: true,
             covariant_fields: false,
             defaults: true,
+            comment_close_in_text: true,
         }
     }
 }
@@ -82,6 +85,14 @@ pub fn description(ch: &mut Choices, level: u8) -> Option<String> {
     } else {
         Some(ch.pick(STRINGS).to_string())
     }
+}
+
+pub fn strip_comment_close(doc: &mut [MTsDef]) {
+    crate::model::map_ts_strings(doc, &mut |s: &mut String| {
+        if s.contains("*/") {
+            *s = s.replace("*/", "* /");
+        }
+    });
 }
 
 fn wrap_output(ch: &mut Choices, base: &str) -> MType {
@@ -223,7 +234,7 @@ pub fn gen_schema(ch: &mut Choices, o: &SchemaGenOpts) -> GenSchema {
         for v in pick_distinct(ch, ENUM_VALUE_POOL, n) {
             let mut ev = MEnumValue { desc: description(ch, o.descriptions), name: v, directives: vec![] };
             if o.deprecations && ch.chance(1, 6) {
-                ev.directives.push(deprecated(ch));
+                ev.directives.push(deprecated_with(ch, o.comment_close_in_text));
             }
             t.values.push(ev);
         }
@@ -255,7 +266,7 @@ pub fn gen_schema(ch: &mut Choices, o: &SchemaGenOpts) -> GenSchema {
                 name: fname,
                 ty,
                 default: None,
-                directives: if o.deprecations && ch.chance(1, 8) { vec![deprecated(ch)] } else { vec![] },
+                directives: if o.deprecations && ch.chance(1, 8) { vec![deprecated_with(ch, o.comment_close_in_text)] } else { vec![] },
             });
         }
         types.insert(i.clone(), t);
@@ -330,14 +341,14 @@ pub fn gen_schema(ch: &mut Choices, o: &SchemaGenOpts) -> GenSchema {
             .map(|a| {
                 let mut iv = arg_dict[&a].clone();
                 if o.deprecations && ch.chance(1, 10) && !(iv.ty.is_non_null() && iv.default.is_none()) {
-                    iv.directives.push(deprecated(ch));
+                    iv.directives.push(deprecated_with(ch, o.comment_close_in_text));
                 }
                 iv
             })
             .collect();
         let mut directives = vec![];
         if o.deprecations && ch.chance(1, 8) {
-            directives.push(deprecated(ch));
+            directives.push(deprecated_with(ch, o.comment_close_in_text));
         }
         field_dict.insert(
             f.clone(),
@@ -633,12 +644,19 @@ pub fn gen_schema(ch: &mut Choices, o: &SchemaGenOpts) -> GenSchema {
 }
 
 fn deprecated(ch: &mut Choices) -> MDirective {
+    deprecated_with(ch, true)
+}
+
+fn deprecated_with(ch: &mut Choices, comment_close: bool) -> MDirective {
     if ch.flip() {
         MDirective { name: "deprecated".into(), args: vec![] }
     } else {
         MDirective {
             name: "deprecated".into(),
-            args: vec![("reason".into(), MValue::Str(ch.pick(&["use other", "old */ thing", "no \"more\""]).to_string()))],
+            args: vec![(
+                "reason".into(),
+                MValue::Str(if comment_close { ch.pick(&["use other", "old */ thing", "no \"more\""]).to_string() } else { ch.pick(&["use other", "old thing", "no \"more\""]).to_string() }),
+            )],
         }
     }
 }
